@@ -50,6 +50,9 @@ def run(ctx):
              ('cf2d', dict(ny=3, nx=4, holes='none', bounds=True, bad_bounds=rng.choice(['xy_nv', 'nv_xy']))),
              ('cf2d', dict(ny=3, nx=3, holes='corner', bounds=True, bad_bounds=rng.choice(['xy_nv', 'nv_yx', 'five', 'lat_only_xy_nv']))),
              ('cf1d', dict(ny=3, nx=4, bounds=True, bad_bounds=rng.choice(['transposed', 'three']))),
+             # single-cell datasets
+             ('cf1d', dict(ny=1, nx=1, bounds=True)), ('cf2d', dict(ny=1, nx=1, bounds=True, holes='none', invalid=False)),
+             ('shoc_standard', dict(nj=1, ni=1, holes='none', invalid=False)), ('ugrid', dict(w=1, h=1, invalid=False)),
              ('shoc_simple', dict(ny=3, nx=3, holes='corner')), ('shoc_standard', dict(nj=3, ni=4, holes='random')),
              ('shoc_standard', dict(nj=3, ni=3, holes='edge', invalid=True)),
              ('shoc_standard', dict(nj=2, ni=4, holes='corner', invalid=False, transposed_coords=('x_centre',))),
@@ -61,9 +64,11 @@ def run(ctx):
                                                                ('shoc_standard', dict(nj=2, ni=3, invalid=False)),
                                                                ('ugrid', dict(w=3, h=2, invalid=False))]])
     exprs, plans = [], []
+    snaps = []
     for d in datasets:
         flav = FLAVOUR[d.family]
         vars_ = gen.add_data_vars(rng, d.ds, d.spec['kinds'], n_extra_max=2)
+        snaps.append((d, d.ds.copy(deep=True)))
         shapes = expected_shapes(d)
         g = f'{{| fl := {FCTOR[flav]}; shapes := {to_coq([(KCODE[flav][k], s) for k, s in shapes.items()])} |}}'
         winds = '[' + '; '.join(
@@ -200,6 +205,21 @@ def run(ctx):
             elif shapely.Polygon(q).area > 0 and brute != mh:
                 ctx.report('correspondence', f'model hits {mh} differ from GEOS {brute}', case, found_input=False)
 
+    # reading a dataset leaves it as it was, and a second dataset over the same arrays (dataset.copy(), a shallow copy) has
+    # the same cells at the same positions
+    import warnings as _w
+    for d, snap in snaps:
+        ctx.count('second_reading_of_the_same_arrays')
+        case = {'dataset': d.spec['label'], 'what': 'dataset.copy() read after the dataset itself'}
+        with _w.catch_warnings():
+            _w.simplefilter('ignore')
+            r = attempt(lambda: (pm.impl_polygons(d.ds.ems), pm.impl_polygons(d.ds.copy().ems)))
+        if not d.ds.identical(snap):
+            ctx.report('property', 'the dataset was modified in place by reading its geometry', case)
+        elif r[0] == 'ok' and r[1][0] != r[1][1]:
+            n = next(i for i, (a, b) in enumerate(zip(*r[1])) if a != b)
+            ctx.report('property', f'position {n}: a shallow copy of the dataset has polygon {r[1][1][n]}, the dataset itself {r[1][0][n]}', case)
+
 
 def twin_leg(ctx, datasets):
     """Two datasets alive in one process that come from the same file and have the same sizes but describe different cells
@@ -237,8 +257,12 @@ def twin_leg(ctx, datasets):
             pb, cb = r[1]
             want = [None if p is None else [(x + 1.5, y + 0.75) for x, y in p] for p in pa]
             bad = None
-            if pb != want:
-                n = next((i for i, (x, y) in enumerate(zip(pb, want)) if x != y), None)
+            def close(p, q):
+                # (synthesised corners are means of three or four numbers: shifting them is exact only to rounding)
+                return (p is None) == (q is None) and (p is None or (
+                    len(p) == len(q) and all(abs(a - c) <= 1e-9 and abs(b - e) <= 1e-9 for (a, b), (c, e) in zip(p, q))))
+            if len(pb) != len(want) or not all(close(x, y) for x, y in zip(pb, want)):
+                n = next((i for i, (x, y) in enumerate(zip(pb, want)) if not close(x, y)), None)
                 bad = (f'position {n}: polygon {None if n is None or pb[n] is None else pb[n][:3]} of the edited dataset is not its '
                        f'own cell {None if n is None or want[n] is None else want[n][:3]} (nothing of the dataset opened first may be reused)')
             elif len(cb) == len(ca) and not numpy.allclose(cb, ca + numpy.array([1.5, 0.75]), rtol=0, atol=1e-9, equal_nan=True):
